@@ -57,7 +57,7 @@ Definition update_pto_timer (m : mgr) (now : N) : mgr :=
       let ae_in_flight := existsb p_ae (sentp m) in
       if negb ae_in_flight && pv m then cancel (ptos m)
       else
-        let base := match last_ae m with Some t => t | None => now end in
+        let base := if ae_in_flight then match last_ae m with Some t => t | None => now end else now in
         update (ptos m) base (pto_period (rt (pa m)) (backoff m) (m_space m)) in
   {| m_space := m_space m; m_client := m_client m; pv := pv m; m_conf := m_conf m; sentp := sentp m; largest := largest m;
      loss_timer := loss_timer m; ptos := pt; last_ae := last_ae m; pend := false;
